@@ -12,13 +12,15 @@ from .algebra import rat, angle_of, result_kind, close_num, expected_of
 
 mpf = mpmath.mpf
 TOL = mpf(10) ** -35
-CONCRETE_PARAMS = {"scale", "divide", "np_power"}
-SKIP = {"scale2D", "scale3D", "neg2D", "neg3D", "transform2D_partial", "transform3D_partial", "equal", "not_equal", "isclose"}
+CONCRETE_PARAMS = {"scale", "divide", "np_power", "scale2D", "scale3D"}
+SKIP = {"equal", "not_equal", "isclose"}
 # spellings of one operation: method, operator, reflected operator, ufunc, in-place operator (the target keeps its system)
 FORMS = {"add": ["method", "operator", "ufunc", "inplace"], "subtract": ["method", "operator", "ufunc", "inplace"],
          "scale": ["method", "operator", "roperator", "inplace"], "divide": ["operator", "inplace"], "dot": ["method", "operator"],
          "neg": ["operator"], "abs": ["operator"], "square": ["operator"], "np_sqrt": ["ufunc"], "np_cbrt": ["ufunc"], "np_power": ["ufunc"]}
 _cache = {}
+_exprs = {}
+_last_key = [None]
 
 
 def sym_vector(prefix, sig, flavor, by_keywords=False):
@@ -48,7 +50,7 @@ def sym_vector(prefix, sig, flavor, by_keywords=False):
 
 
 def nparams(op, p):
-    if op in ("scale", "divide", "np_power", "rotateZ", "rotateX", "rotateY", "rotate_axis") or op.endswith("_beta") or op.endswith("_gamma") or op.startswith("is_"):
+    if op in ("scale", "divide", "np_power", "scale2D", "scale3D", "rotateZ", "rotateX", "rotateY", "rotate_axis") or op.endswith("_beta") or op.endswith("_gamma") or op.startswith("is_"):
         return 1
     if op in ("rotate_euler", "rotate_nautical"):
         return 3
@@ -60,7 +62,7 @@ def nparams(op, p):
 
 
 def param_values(op, p):
-    if op in ("scale", "divide", "np_power") or op.endswith("_beta") or op.endswith("_gamma") or op.startswith("is_"):
+    if op in ("scale", "divide", "np_power", "scale2D", "scale3D") or op.endswith("_beta") or op.endswith("_gamma") or op.startswith("is_"):
         return [rat(p[0])]
     if op in ("rotateZ", "rotateX", "rotateY", "rotate_axis"):
         return [angle_of(p[0], 0)]
@@ -128,10 +130,14 @@ def sym_call(op, A, B, ps, p, form="method"):
         return A.rotate_nautical(ps[0], ps[1], ps[2])
     if op == "rotate_quaternion":
         return A.rotate_quaternion(*ps)
+    if op in ("scale2D", "scale3D"):
+        return getattr(A, op)(ps[0])
+    if op in ("neg2D", "neg3D"):
+        return getattr(A, op)
     if op.startswith("transform"):
         n = int(op[9])
         L = "xyzt"
-        return getattr(A, op)({L[i] + L[j]: ps[i * n + j] for i in range(n) for j in range(n)})
+        return getattr(A, op[:11])({L[i] + L[j]: ps[i * n + j] for i in range(n) for j in range(n)})
     if op.endswith("_beta"):
         return getattr(A, op[:6])(beta=ps[0])
     if op.endswith("_gamma"):
@@ -150,6 +156,7 @@ def compiled(op, sa, sb, flavor, p, form="method"):
 
     fixed = json.dumps(p[3]) if op == "rotate_euler" else (json.dumps(p) if op in CONCRETE_PARAMS else "")
     key = (op, sa, sb, flavor, fixed, form)
+    _last_key[0] = key
     if key in _cache:
         return _cache[key]
     kwctor = (hash(json.dumps([op, sa, sb])) % 2) == 0
@@ -177,6 +184,7 @@ def compiled(op, sa, sb, flavor, p, form="method"):
         els = list(out.azimuthal.elements) + (list(out.longitudinal.elements) if len(rsig) > 1 else []) + (list(out.temporal.elements) if len(rsig) > 2 else [])
         f = sympy.lambdify(args, [sympy.sympify(e) for e in els], modules="mpmath")
         _cache[key] = (f, "vec", rsig)
+        _exprs[key] = ([sympy.sympify(e) for e in els], list(sya))
     else:
         f = sympy.lambdify(args, sympy.sympify(out), modules="mpmath")
         _cache[key] = (f, rk, None)
@@ -202,6 +210,8 @@ def run_case(case, full):
             return recs, 0
         if len(exp) == 4 and not (exp[3] > 0 and exp[3] ** 2 - rho2 - exp[2] ** 2 > mpf(10) ** -30):
             return recs, 0
+    if kind == "partial" and exp[1][0] ** 2 + exp[1][1] ** 2 <= mpf(10) ** -30:
+        return recs, 0
     if kind == "num" and op in algebra.SQRT_LIKE and algebra._finite(exp) and any(abs(exp - s0) <= mpf(10) ** -15 for s0 in algebra.SQRT_LIKE[op]):
         return recs, 0
     sas = coords.signatures(len(va))
@@ -216,6 +226,8 @@ def run_case(case, full):
         scale *= algebra.boost_scale(case, vb)
     if kind == "vec":
         scale = max(scale, 1 + algebra.maxabs(exp))
+    elif kind == "partial":
+        scale = max(scale, 1 + algebra.maxabs(exp[1]))
     elif kind == "num" and algebra._finite(exp):
         scale = max(scale * scale, 1 + abs(exp))
     for sa, sb in combos:
@@ -250,6 +262,26 @@ def run_case(case, full):
                   e = max(e, mpf(10) ** -14 * scale)     # the library's exponent is the double literal 0.16666666666666666
               if not close_num(val, exp, e, angle=(op in algebra.ANGLE_VALUED or tie)):
                   recs.append(dict(base, kind="wrong-value", got=mpmath.nstr(val, 30), want=mpmath.nstr(exp, 30)))
+          elif kind == "partial":
+              # scaleN / negN / transformN on a higher-dimensional vector: the first N Cartesian components are
+              # transformed, the stored higher coordinates are the operand's own (the very same symbols)
+              npart, pexp = exp
+              st = [mpf(x) if not isinstance(x, mpmath.mpc) else x.real for x in out]
+              exprs, srcsyms = _exprs[_last_key[0]]
+              if len(rsig) != len(sa):
+                  recs.append(dict(base, kind="wrong-dimension", got=len(rsig) + 1, want=len(sa) + 1))
+                  continue
+              bad_high = [g for g in range(npart - 1, len(sa)) if rsig[g] != sa[g] or exprs[g + 1] != srcsyms[g + 1]]
+              if bad_high:
+                  recs.append(dict(base, kind="stored-higher-coordinate-not-carried", groups=bad_high, rsig=rsig,
+                                   got=[str(exprs[g + 1])[:60] for g in bad_high], want=[str(srcsyms[g + 1]) for g in bad_high]))
+                  continue
+              cart = coords.denote(st, rsig)
+              if npart == 3 and not algebra.result_representable(list(pexp) + ([cart[3]] if len(cart) > 3 else []), rsig):
+                  continue
+              bad = [i for i in range(npart) if not close_num(cart[i], pexp[i], eps)]
+              if bad:
+                  recs.append(dict(base, kind="wrong-value", rsig=rsig, got=[mpmath.nstr(c, 25) for c in cart], want=[mpmath.nstr(c, 25) for c in pexp]))
           else:
               st = [mpf(x) if not isinstance(x, mpmath.mpc) else x.real for x in out]
               if len(st) != len(exp) or len(rsig) + 1 != len(exp):
